@@ -20,6 +20,10 @@ BANDS = {0: (915000000, 928000000), 1: (915000000, 928000000), 2: (915000000, 92
          4: (915000000, 928000000), 5: (863000000, 870000000), 6: (433050000, 434790000), 7: (865000000, 867000000), 8: (902000000, 928000000)}
 
 
+# RP002: largest RX1DROffset each region defines (AS923-1..4, AU915, EU868, EU433, IN865, US915)
+RP_MAX_RX1_OFFSET = {0: 7, 1: 7, 2: 7, 3: 7, 4: 5, 5: 5, 6: 5, 7: 7, 8: 3}
+
+
 def rp_rx1(region, dr, off):
     if region == 8:
         return min(13, max(8, 10 + dr - off)) if dr <= 4 and off <= 3 else None
@@ -63,6 +67,18 @@ def gen(rng, tier):
                 net.rx2c()
             net.op("delays")
             lines.append(net.line())
+        # JoinAccept DLSettings: every RX1DROffset x a few RX2 data rates, then uplinks at every data rate of the region
+        for joff in range(8):
+            for rx2 in ([RX2DR[region]] if tier == "quick" else [RX2DR[region], 0, r.choice(list(machist.DEFINED[region]))]):
+                net = machist.Net(r, region)
+                net.otaa_request(ndraws=30)
+                net.join_accept(dl_settings=(joff << 4) | rx2, rx_delay=r.choice([0, 1, 2, 5]), cflist=b"")
+                net.snap()
+                for dr in machist.UPLINK_DR[region]:
+                    net.op("dr %d" % dr)
+                    net.send(b"j", 1, False, ndraws=40)
+                    net.rx2c()
+                lines.append(net.line())
         for k in range(30 if tier == "quick" else 500):
             lines.append(machist.random_history(r.fork("h%d" % k), region, 15, classc=True))
     lines += chanops.gen(rng, tier, lambda q: machist.draws(q, 40) + "," + ",".join(str(v) for v in range(32)))
@@ -76,6 +92,7 @@ def oracle(case, impl, model=None):
     fam = DRS[FAM[region]]
     inv = {v: k for k, v in fam.items()}
     off = rx2dr = rx2f = None
+    appkey = join_off = None
     delay = 1000
     exp_dl = {}          # channel index -> downlink frequency negotiated by an effective DlChannelReq (dynamic plans)
     track = region not in machist.FIXED
@@ -86,6 +103,23 @@ def oracle(case, impl, model=None):
         a, o = op.split(), outs[i]
         if a[0] in ("abp", "otaa"):
             exp_dl = {}
+        if a[0] == "otaa":
+            appkey = bytes.fromhex(a[3])
+        if a[0] == "rx" and appkey is not None and o.startswith("JoinSuccess"):
+            # the JoinAccept's DLSettings are in force from the join on (there is no answer that could refuse them): decrypt it as the
+            # device does (AES-encrypt the body) and remember the RX1 offset when RP002 defines it for the region
+            body = bytes.fromhex(a[1])[1:]
+            pt = b"".join(lw.aes_enc(appkey, body[k:k + 16]) for k in range(0, len(body) - len(body) % 16, 16))
+            if len(pt) >= 12:
+                joff = (pt[10] >> 4) & 7
+                join_off = joff if joff <= RP_MAX_RX1_OFFSET[region] else None
+        if a[0] == "snap" and join_off is not None:
+            mj = re.search(r"rx1off=(\d+)", o)
+            if mj:
+                if int(mj.group(1)) != join_off:
+                    return {"kind": "the RX1 data-rate offset of the accepted JoinAccept (valid for the region) is not in force", "join_accept_offset": join_off,
+                            "device_offset": int(mj.group(1))}
+                join_off = None
         if a[0] == "snap":
             mm = re.search(r"dyn ch=(\S+) mask=\[([^\]]*)\]", o)
             if mm:
